@@ -9,6 +9,13 @@ def vid(c):
     return c.get("vid", c["cid"])
 
 
+def pick(c, salt, n):
+    """a variant choice in 0..n-1 that depends on the case's number through a hash (independent of the case's own fields and of other choices,
+    unlike vid % n, which can run in step with the generator's enumeration order)"""
+    import zlib
+    return zlib.crc32(("%d:%s" % (vid(c), salt)).encode()) % n
+
+
 def mk_tree(P, attr=None, xs=None, extra=None, unit=1.0, offset=(0.0, 0.0, 0.0)):
     """Tree from a topology P (parent ids) and per-node <<type, y, z, r>>; x carries the node's identity tag 100+i."""
     from swcgeom.core import Tree
